@@ -55,7 +55,8 @@ func run(t *testing.T, field, body, extra string) fact {
 
 // the Coq-side discipline (Lib/CounterFacts.v check_counter), restated
 func accepted(f fact) bool {
-	return ((f.FieldType == "uint64" && f.Shape == "AddUint64") || (f.FieldType == "sync/atomic.Uint64" && f.Shape == "MethodAdd")) &&
+	return ((f.FieldType == "uint64" && f.Shape == "AddUint64") || (f.FieldType == "sync/atomic.Uint64" && f.Shape == "MethodAdd") ||
+		(f.FieldType == "int64" && f.Shape == "AddInt64") || (f.FieldType == "sync/atomic.Int64" && f.Shape == "MethodAdd")) &&
 		f.Delta == "1" && f.Renderings == 1 && f.Uses == 1
 }
 
@@ -78,7 +79,42 @@ func TestShapes(t *testing.T) {
 		{"another base is not a width matter", "storeID atomic.Uint64", "store.id = strconv.AppendUint(store.id, mux.storeID.Add(1), 10)", "", true},
 		{"an unrelated number rendered elsewhere", "storeID atomic.Uint64",
 			"store.id = strconv.AppendUint(store.id, mux.storeID.Add(1), 36)\n\t_ = strconv.FormatUint(uint64(store.W.Status), 10)", "", true},
+		// battery 2
+		{"R1 counter in a nested struct, rendered in its method", "ids idSource", "store.id = mux.ids.next(store.id)",
+			"type idSource struct {\n\tprefix [9]byte\n\tseq atomic.Uint64\n}\n" +
+				"func (src *idSource) next(buf []byte) []byte { return strconv.AppendUint(buf, src.seq.Add(1), 36) }", true},
+		{"R4 increment in one function, rendering in another, value passed as a uint64 parameter", "storeID atomic.Uint64", "store = mux.acquire(store)",
+			"func (mux *Mux) acquire(s *Store) *Store { s.bind(nil, mux.storeID.Add(1)); return s }\n" +
+				"func (store *Store) bind(r *http.Request, ticket uint64) { store.id = strconv.AppendUint(store.id, ticket, 36) }", true},
+		{"extra_b accessor whose result is rendered", "storeID atomic.Uint64", "store.id = strconv.AppendUint(store.id, mux.nextTicket(), 36)",
+			"func (mux *Mux) nextTicket() uint64 { return mux.storeID.Add(1) }", true},
+		{"extra_c declared, then assigned exactly once", "storeID atomic.Uint64", "var ticket uint64\n\tticket = mux.storeID.Add(1)\n\tstore.id = strconv.AppendUint(store.id, ticket, 36)", "", true},
+		{"extra_a atomic.Int64 converted to uint64", "storeID atomic.Int64", "store.id = strconv.AppendUint(store.id, uint64(mux.storeID.Add(1)), 36)", "", true},
+		{"int64 + AddInt64 converted to uint64", "storeID int64", "store.id = strconv.AppendUint(store.id, uint64(atomic.AddInt64(&mux.storeID, 1)), 36)", "", true},
+		{"Int64 through a local", "storeID atomic.Int64", "seq := mux.storeID.Add(1)\n\tstore.id = strconv.AppendUint(store.id, uint64(seq), 36)", "", true},
 		// ---- must fail
+		{"nested struct with a 32-bit counter", "ids idSource", "store.id = mux.ids.next(store.id)",
+			"type idSource struct{ seq atomic.Uint32 }\n" +
+				"func (src *idSource) next(buf []byte) []byte { return strconv.AppendUint(buf, uint64(src.seq.Add(1)), 36) }", false},
+		{"parameter narrowed in the callee", "storeID atomic.Uint64", "store = mux.acquire(store)",
+			"func (mux *Mux) acquire(s *Store) *Store { s.bind(mux.storeID.Add(1)); return s }\n" +
+				"func (store *Store) bind(ticket uint64) { store.id = strconv.AppendUint(store.id, uint64(uint32(ticket)), 36) }", false},
+		{"argument narrowed at the call site", "storeID atomic.Uint64", "store = mux.acquire(store)",
+			"func (mux *Mux) acquire(s *Store) *Store { s.bind(mux.storeID.Add(1) % 1296); return s }\n" +
+				"func (store *Store) bind(ticket uint64) { store.id = strconv.AppendUint(store.id, ticket, 36) }", false},
+		{"parameter of a narrower type", "storeID atomic.Uint64", "store = mux.acquire(store)",
+			"func (mux *Mux) acquire(s *Store) *Store { s.bind(uint32(mux.storeID.Add(1))); return s }\n" +
+				"func (store *Store) bind(ticket uint32) { store.id = strconv.AppendUint(store.id, uint64(ticket), 36) }", false},
+		{"accessor that truncates", "storeID atomic.Uint64", "store.id = strconv.AppendUint(store.id, mux.nextTicket(), 36)",
+			"func (mux *Mux) nextTicket() uint64 { return mux.storeID.Add(1) & 0xffff }", false},
+		{"accessor with a narrower result", "storeID atomic.Uint64", "store.id = strconv.AppendUint(store.id, uint64(mux.nextTicket()), 36)",
+			"func (mux *Mux) nextTicket() uint32 { return uint32(mux.storeID.Add(1)) }", false},
+		{"declared, then assigned twice", "storeID atomic.Uint64", "var ticket uint64\n\tticket = mux.storeID.Add(1)\n\tticket = ticket >> 3\n\tstore.id = strconv.AppendUint(store.id, ticket, 36)", "", false},
+		{"declared narrower, then assigned", "storeID atomic.Uint64", "var ticket uint32\n\tticket = uint32(mux.storeID.Add(1))\n\tstore.id = strconv.AppendUint(store.id, uint64(ticket), 36)", "", false},
+		{"atomic.Int32", "storeID atomic.Int32", "store.id = strconv.AppendUint(store.id, uint64(mux.storeID.Add(1)), 36)", "", false},
+		{"Int64 narrowed before the conversion", "storeID atomic.Int64", "store.id = strconv.AppendUint(store.id, uint64(int32(mux.storeID.Add(1))), 36)", "", false},
+		{"hand-written rendering (unrecognised)", "storeID atomic.Uint64", "store.id = appendBase36(store.id, mux.storeID.Add(1))",
+			"func appendBase36(b []byte, n uint64) []byte { for n > 0 { b = append(b, \"0123456789abcdefghijklmnopqrstuvwxyz\"[n%36]); n /= 36 }; return b }", false},
 		{"seeded C05f: uint32 counter widened for rendering", "storeID uint32", "store.id = strconv.AppendUint(store.id, uint64(atomic.AddUint32(&mux.storeID, 1)), 36)", "", false},
 		{"atomic.Uint32 field", "storeID atomic.Uint32", "store.id = strconv.AppendUint(store.id, uint64(mux.storeID.Add(1)), 36)", "", false},
 		{"% 1296", "storeID atomic.Uint64", "store.id = strconv.AppendUint(store.id, mux.storeID.Add(1)%1296, 36)", "", false},
